@@ -263,7 +263,9 @@ ERR_STATUSES = (400, 404, 405)
 # host options (errors_dir, extension_default, folder_default); BENIGN: the hypothesis benign_host of the confinement theorems holds
 BENIGN_OPTS = [(b"errors", b"html", b"index.html")] * 6 + [
     (b"err", b"html", b"index.html"), (b"err/pages", b"txt", b"a"), (b"errors", b"txt", b"sub/index.html"), (b"errors", b"a.html", b"secret.txt"),
-    (b"errors", b"html", b"index."), (b"errors", b"%68tml", b"%69ndex.html"), (b"errors", b"", b""), (b"err", b"html/", b"a/")]
+    (b"errors", b"html", b"index."), (b"errors", b"%68tml", b"%69ndex.html"), (b"errors", b"", b""), (b"err", b"html/", b"a/"),
+    # doubly encoded: benign as long as the option is decoded exactly once (with the path it was appended to)
+    (b"errors", b"%2568tml", b"%252e%252e/secret.txt"), (b"errors", b"%252e%252e/secret.txt", b"%252e%252e%252fsecret.txt")]
 # the operator's own configuration leads outside: the model predicts it (correspondence), the oracles are not applied; the Coq
 # spec component says "not benign" for exactly these
 NON_BENIGN_OPTS = [(b"errors", b"html", b"../secret.txt"), (b"errors", b"html", b"%2e%2e/secret.txt"), (b"errors", b"/../secret.txt", b"index.html"),
